@@ -64,6 +64,11 @@ def check_sites(ctx):
         view = view_of(f)
         key0 = f.qual
         gen = pcall.args[0] if pcall.args else None
+        if isinstance(gen, ast.Name):
+            # the task list built first and handed over by name
+            ds = [d for d in view.reaching(gen.id, view.stmt_of(pcall)) if d.value is not None]
+            if len(ds) == 1 and isinstance(ds[0].value, (ast.GeneratorExp, ast.ListComp)):
+                gen = ds[0].value
         if not isinstance(gen, (ast.GeneratorExp, ast.ListComp)) or len(gen.generators) != 1:
             raise AnalysisError('%s: Parallel(..) argument is not a single generator' % f.where)
         comp = gen.generators[0]
